@@ -30,6 +30,20 @@ ASSUMPTIONS = [
 
 
 def _probe(src, info):
+    attrs = info.attrs()
+    backed = [n for n, a in attrs.items() if a["default"][0] in ("cached_prop", "derived_prop", "view_prop")]
+    if backed and src.chance(1, 3):
+        # attributes backed by a property (cached / derived from a cached one / a view on something the instance owns): the
+        # helper has to READ them first - which is where a receiver gets touched
+        n = src.pick(backed)
+        if grammar.is_collection(attrs[n]["type"]) and src.chance(2, 3):
+            return ops.gen_element_call(src, info, None, n, False, (1, 4))
+        return ops.gen_scalar_call(src, info, None, n, False, (1, 4))
+    inherited_items = [n for n, a in attrs.items() if grammar.is_collection(a["type"]) and info.prepare_kind(n, item=True)]
+    if inherited_items and src.chance(1, 6):
+        # a collection with an element preparer in force, handed over whole: the caller's collection is never prepared in place
+        n = src.pick(inherited_items)
+        return {"t": "call", "m": f"with_{n}", "a": [grammar.gen_value(src, attrs[n]["type"], True)], "k": {}}
     return ops.gen_op(src, info, inplace=False, bad_rate=(1, 4), allow=("scalar", "element", "top"))
 
 
